@@ -17,11 +17,22 @@ structure Ext where
   body : Bytes
 deriving Repr, DecidableEq
 
+/-- how a VLAN tag is announced by the layer in front of it -/
+inductive TPID where
+  | ctag | stag | old
+deriving Repr, DecidableEq
+
+def TPID.bytes : TPID → Bytes
+  | .ctag => [0x81, 0x00]
+  | .stag => [0x88, 0xa8]
+  | .old => [0x91, 0x00]
+
 inductive RLayer where
   | eth (dst src : Bytes)
   /-- `len`: the 802.3 length field (2 bytes) -/
   | dot3 (dst src len : Bytes)
-  | vlan (tci : Bytes)
+  /-- `tpid`: the tag protocol identifier in front of the tag; `tci`: PCP, DEI, VLAN id (2 bytes) -/
+  | vlan (tpid : TPID) (tci : Bytes)
   | loopback (family : Bytes)
   /-- `vp`: version and pad (2 bytes); `body`: the first present word and everything else up to `it_len` -/
   | radiotap (vp body : Bytes)
@@ -49,7 +60,7 @@ inductive RLayer where
 deriving Repr, DecidableEq
 
 def etherTypeR : List RLayer → Bytes
-  | .vlan _ :: _ => [0x81, 0x00]
+  | .vlan tp _ :: _ => tp.bytes
   | .ip4 _ _ _ _ _ :: _ => [0x08, 0x00]
   | .ip6 _ _ _ _ _ :: _ => [0x86, 0xdd]
   | .arp _ _ _ _ _ :: _ => [0x08, 0x06]
@@ -83,7 +94,7 @@ def serR : List RLayer → Bytes
   | [] => []
   | .eth d s :: m => d ++ (s ++ (etherTypeR m ++ serR m))
   | .dot3 d s l :: m => d ++ (s ++ (l ++ serR m))
-  | .vlan tci :: m => tci ++ (etherTypeR m ++ serR m)
+  | .vlan _ tci :: m => tci ++ (etherTypeR m ++ serR m)
   | .loopback f :: m => f ++ serR m
   | .radiotap vp body :: m =>
     vp ++ (UInt8.ofNat ((body.length + 4) % 256) :: UInt8.ofNat ((body.length + 4) / 256) :: (body ++ serR m))
@@ -106,7 +117,7 @@ def mirror : List SLayer → List RLayer
   | [] => []
   | .eth s d :: r => .eth s d :: mirror r                 -- reply destination := request source
   | .dot3 s d :: r => .dot3 s d [0, 0] :: mirror r
-  | .vlan t :: r => .vlan t :: mirror r
+  | .vlan t :: r => .vlan .ctag t :: mirror r
   | .loopback f :: r => .loopback f :: mirror r
   | .radiotap :: r => .radiotap [0, 0] [0, 0, 0, 0] :: mirror r
   | .ip4 hdr :: r => .ip4 [0, 0, 0, 0, 0, 0, 0, 64] [0, 0] (slice hdr 16 4) (slice hdr 12 4) [] :: mirror r
@@ -138,7 +149,7 @@ def shape : List SLayer → List RLayer → Bool
   | .payload :: _, _ => true
   | .eth _ _ :: r, .eth rd rs :: m => rd.length == 6 && rs.length == 6 && shape r m
   | .dot3 _ _ :: r, .dot3 rd rs l :: m => rd.length == 6 && rs.length == 6 && l.length == 2 && shape r m
-  | .vlan _ :: r, .vlan t :: m => t.length == 2 && shape r m
+  | .vlan _ :: r, .vlan _ t :: m => t.length == 2 && shape r m
   | .loopback _ :: r, .loopback f :: m => f.length == 4 && shape r m
   | .radiotap :: r, .radiotap vp body :: m =>
     vp.length == 2 && decide (4 ≤ body.length) && decide (body.length + 4 < 65536) && shape r m
@@ -167,7 +178,7 @@ def verdictR : List SLayer → List RLayer → Verdict
   | .payload :: _, _ => .accept
   | .eth s d :: r, .eth rd rs :: m => field (rd == s) true (field (rs == d) (!macIsGroup d) (verdictR r m))
   | .dot3 s d :: r, .dot3 rd rs _ :: m => field (rd == s) true (field (rs == d) (!macIsGroup d) (verdictR r m))
-  | .vlan tci :: r, .vlan t :: m => field (vid t == vid tci) true (verdictR r m)
+  | .vlan tci :: r, .vlan _ t :: m => field (vid t == vid tci) true (verdictR r m)
   | .loopback f :: r, .loopback rf :: m => if rf == f then verdictR r m else .unspec
   | .radiotap :: r, .radiotap _ _ :: m => verdictR r m
   | .ip4 hdr :: r, .ip4 _ _ rs rd _ :: m =>
@@ -195,7 +206,7 @@ def verdictR : List SLayer → List RLayer → Verdict
 def matchedFieldDiffers : List SLayer → List RLayer → Bool
   | .eth s d :: r, .eth rd rs :: m => rd != s || (!macIsGroup d && rs != d) || matchedFieldDiffers r m
   | .dot3 s d :: r, .dot3 rd rs _ :: m => rd != s || (!macIsGroup d && rs != d) || matchedFieldDiffers r m
-  | .vlan tci :: r, .vlan t :: m => vid t != vid tci || matchedFieldDiffers r m
+  | .vlan tci :: r, .vlan _ t :: m => vid t != vid tci || matchedFieldDiffers r m
   | .loopback f :: r, .loopback rf :: m => rf == f && matchedFieldDiffers r m
   | .radiotap :: r, .radiotap _ _ :: m => matchedFieldDiffers r m
   | .ip4 hdr :: r, .ip4 _ _ rs rd _ :: m =>
@@ -221,7 +232,7 @@ def isMirror : List SLayer → List RLayer → Bool
   | .payload :: _, _ => true
   | .eth s d :: r, .eth rd rs :: m => rd == s && rs == d && isMirror r m
   | .dot3 s d :: r, .dot3 rd rs _ :: m => rd == s && rs == d && isMirror r m
-  | .vlan tci :: r, .vlan t :: m => vid t == vid tci && isMirror r m
+  | .vlan tci :: r, .vlan _ t :: m => vid t == vid tci && isMirror r m
   | .loopback f :: r, .loopback rf :: m => rf == f && isMirror r m
   | .radiotap :: r, .radiotap _ _ :: m => isMirror r m
   | .ip4 hdr :: r, .ip4 _ _ rs rd _ :: m =>
